@@ -55,6 +55,9 @@ def placements(label, body):
     out = [
         ('header', {'Content-Type': 'text/html; charset=%s' % label}, body),
         ('header-upper', {'Content-Type': 'TEXT/HTML; CHARSET=%s' % label}, body),
+        ('header-then-parameter', {'Content-Type': 'text/html; charset=%s; boundary=x' % label}, body),
+        ('header-then-parameters', {'Content-Type': 'text/html;charset=%s ;q=0.9;level=1' % label}, b'<meta charset="koi8-r">' + body),
+        ('header-after-parameter', {'Content-Type': 'text/html; level=1; charset=%s' % label}, body),
         ('meta', {'Content-Type': 'text/html'}, b'<html><head><meta charset="' + lb + b'"></head>' + body),
         ('meta-http-equiv', {}, b'<meta http-equiv="Content-Type" content="text/html; charset=' + lb + b'">' + body),
         ('prolog', {'Content-Type': 'application/xhtml+xml'}, b'<?xml version="1.0" encoding="' + lb + b'"?>' + body),
@@ -86,7 +89,7 @@ def oracle_tables(headers, body):
             ct = v.lower()
     cands = {'utf-8', 'iso-8859-1', 'windows-1252', 'iso-8559-1'}
     if 'charset=' in ct:
-        cands.add(ct.split('charset=')[-1].strip())
+        cands.add(ct.split('charset=')[-1].split(';')[0].strip())
     for x in (meta, prolog):
         if x:
             cands.add(x.strip())
@@ -117,7 +120,7 @@ def ref_encoding(headers, body):
             ct = v.lower()
     label = None
     if 'charset=' in ct:
-        label = ct.split('charset=')[-1]
+        label = ct.split('charset=')[-1].split(';')[0]        # a media type parameter ends at the next ';'
     label = label or meta or prolog
     label = label.strip() if label else label
     if not label and body and det:
